@@ -265,6 +265,14 @@ def run(chk: Check, model):
     direct = [e for e in _step_events(ev.events[n0:], ("step",)) if e.func == f_S.qualname]
     chk.add("C06.count", "_run_S: no step outside a generation", len(direct) == 0, f"{len(direct)} direct step call(s) in _run_S", chk.loc(f_S))
 
+    # ------------------------------------------------------------------ compiled: what "inside the compiled horizon" is
+    # the schedule that decides which ticks exist: run masks / seq per slot are role-preserving copies of the vertices, the horizon is
+    # the number of supervisor steps present in every episode (a longer horizon runs the unmasked supervisor on partitions that a
+    # shorter episode does not have)
+    chk.rule("C06.schedule", "the compiled schedule: every slot entry is slot.F[eps, partition] = vertex.F[eps, seq], entries beyond the horizon are skipped, templates are "
+                             "run=False, the horizon is the number of supervisor steps present in every episode")
+    from ..roles import rule_to_timings
+    rule_to_timings(chk, model, "C06.schedule")
     # ------------------------------------------------------------------ compiled: Graph.run_supervisor
     fi = model.func("graph.Graph.run_supervisor")
     chk.used(fi.qualname)
